@@ -520,7 +520,7 @@ func checkOdometer(c *Ctx, f *ssa.Function) {
 	}
 	c.useFn(f)
 	tb := newTB(f)
-	found, good := 0, 0
+	found, good, unknownLoops := 0, 0, 0
 	var pos token.Pos
 	why := "no descending carry loop found"
 	for _, b := range f.Blocks {
@@ -578,8 +578,20 @@ func checkOdometer(c *Ctx, f *ssa.Function) {
 					one = true
 				}
 			}
+			// evidence that position 0 is left out: the loop is bounded by a comparison of its own index with a
+			// constant that stops above 0 (i > 0, i >= 1). A loop that runs while a condition on the DATA holds
+			// (choices[i] == last) has no such bound and is not this model's loop.
+			indexBound := (cond.X == ssa.Value(ph) || cond.Y == ssa.Value(ph))
+			if _, isC := cond.X.(*ssa.Const); !isC {
+				if _, isC2 := cond.Y.(*ssa.Const); !isC2 {
+					indexBound = false
+				}
+			}
 			if covers && one && b.Succs[0] != nil {
 				good++
+			} else if !indexBound {
+				unknownLoops++
+				why = "the carry loop is not bounded by a comparison of its index with a constant (" + short(tb.T(cond).String()) + ")"
 			} else {
 				why = fmt.Sprintf("carry loop runs from len-1 while %s (step 1=%v): position 0 is not visited", short(tb.T(cond).String()), one)
 			}
@@ -588,8 +600,10 @@ func checkOdometer(c *Ctx, f *ssa.Function) {
 	odSt := holds
 	if found == 0 {
 		odSt = unknown
-	} else if good != found {
+	} else if good+unknownLoops != found {
 		odSt = broken
+	} else if unknownLoops > 0 {
+		odSt = unknown
 	}
 	c.judge(odSt, "SHAPE", "ODOMETER covers positions len-1..0", pos, "the carry loop advances every position, including position 0", why)
 }
